@@ -236,12 +236,104 @@ func isSubsequence(small, big []Event) bool {
 	return i == len(small)
 }
 
+// instanceHit: WHICH processor ran at a node.  "Processors run in the order given
+// by the flow's connections ... and no processor off that path runs": a
+// connection names a processor by a plain key - the processor declared under
+// that key by the flow whose connections mention it - or as "G.k" - the
+// processor flow G declares under k.  Several flows may declare a processor
+// under one key, with parameters of their own; the processor that ran shows in
+// its effect: a Filter outputs hit exactly when the transaction carries ITS
+// steering header, a GenerateResponse answers with ITS status and body, and a
+// processor that is not a GenerateResponse answers nothing.  (Processors whose
+// effect does not tell instances apart - MockProcessor, Limiter, the quota
+// processors - are not judged.)
+func instanceHit(cfg *Config, gs []GFlow, events []Event, early []string, headers []string) (dir, dem, obs string, bad bool) {
+	has := map[string]bool{}
+	for _, h := range headers {
+		has[h] = true
+	}
+	describe := func(in Inst, p *Proc, d string) string {
+		switch p.Type {
+		case tFilter:
+			o, _ := predict(p, d, has)
+			return fmt.Sprintf("processor %s of flow %s (Filter on header %s: outputs %q here)", in.Name, in.Flow, p.Hdr, o.Cond)
+		case tGen:
+			if d == "req" {
+				return fmt.Sprintf("processor %s of flow %s (GenerateResponse: answers %d %q)", in.Name, in.Flow, p.genStatus(), genBody(in.Flow, in.Name))
+			}
+			return fmt.Sprintf("processor %s of flow %s (GenerateResponse)", in.Name, in.Flow)
+		}
+		return fmt.Sprintf("processor %s of flow %s (%s)", in.Name, in.Flow, p.Type)
+	}
+	for i, e := range events {
+		g := flowByName(gs, e.Flow)
+		if g == nil || g.Kind != "user" {
+			continue
+		}
+		d := g.Req.node(e.Key)
+		if e.Dir == "res" {
+			d = g.Res.node(e.Key)
+		}
+		if d == nil {
+			continue // not a node of that flow: reported by the walk check
+		}
+		in := g.instOf(e.Key)
+		p := cfg.proc(in)
+		if p == nil || (p.Type != tFilter && p.Type != tGen) {
+			continue
+		}
+		ea := ""
+		if i < len(early) {
+			ea = early[i]
+		}
+		wantEarly := ""
+		if p.Type == tGen && e.Dir == "req" {
+			wantEarly = fmt.Sprintf("%d %s", p.genStatus(), genBody(in.Flow, in.Name))
+		}
+		want, _ := predict(p, e.Dir, has)
+		if want.Cond == e.Cond && wantEarly == ea {
+			continue
+		}
+		got := fmt.Sprintf("node %s of flow %s (%s) output %q", e.Key, e.Flow, e.Dir, e.Cond)
+		if ea != "" {
+			got += fmt.Sprintf(" and answered %q", ea)
+		}
+		// does the effect fit another declared processor?
+		for fi := range cfg.Flows {
+			f := &cfg.Flows[fi]
+			for pi := range f.Procs {
+				q := &f.Procs[pi]
+				oi := Inst{f.Name, q.Key}
+				if oi == in || (q.Type != tFilter && q.Type != tGen) {
+					continue
+				}
+				qo, _ := predict(q, e.Dir, has)
+				qe := ""
+				if q.Type == tGen && e.Dir == "req" {
+					qe = fmt.Sprintf("%d %s", q.genStatus(), genBody(oi.Flow, oi.Name))
+				}
+				if qo.Cond == e.Cond && qe == ea && q.Key == in.Name {
+					got += ": the effect of " + describe(oi, q, e.Dir)
+				}
+			}
+		}
+		return e.Dir, fmt.Sprintf("node %s of flow %s runs %s", e.Key, e.Flow, describe(in, p, e.Dir)), got, true
+	}
+	return "", "", "", false
+}
+
 // monitor compares what ran with what the text demands.
-func monitor(gs []GFlow, t *Txn, orc Oracle) (hits []c.Hit, undetermined bool) {
+func monitor(cfg *Config, gs []GFlow, t *Txn, orc Oracle) (hits []c.Hit, undetermined bool) {
 	add := func(sig, dem, obs string) {
 		hits = append(hits, c.Hit{Signature: sig, Demanded: dem, Observed: obs})
 	}
 	runs, answered, free := expected(gs, t, orc)
+	// (i) the processor a node runs is the one its connection names; everything
+	// after a wrong one (another output, another path) is a consequence
+	if dir, dem, obs, bad := instanceHit(cfg, gs, t.Events, t.Early, t.Headers); bad {
+		add("wrong-processor-instance:"+dir, dem, obs)
+		return hits, free
+	}
 	// per flow and direction: what ran
 	type fd struct{ f, d string }
 	obs := map[fd][]Event{}
